@@ -5,7 +5,7 @@
    property directly.  Termination of the MODEL is by construction (structural recursion on fuel); that the fuel the
    driver passes suffices is observed on every run (no FUEL outcome), not yet proved.  Proved so far - the tokenizer's
    behaviour on the token classes the top-level loop dispatches on (for every amount of leading horizontal whitespace): *)
-Require Import Bebop.front.Tok Bebop.front.TokInv Bebop.front.LexInv.
+Require Import Bebop.front.Tok Bebop.front.TokInv Bebop.front.LexInv Bebop.front.Parse Bebop.front.ParseInv.
 From Coq Require Import List NArith.
 Import ListNotations.
 
@@ -52,3 +52,35 @@ Proof.
   cbv zeta. split; [repeat constructor|]. split; [cbn; intuition (try discriminate; eauto)|vm_compute; reflexivity].
 Qed.
 Print Assumptions C11_lex.
+
+(* End to end on a core sub-language.  For EVERY list of struct definitions whose names, field types and field names are
+   identifiers that are not keywords (any number of structs and fields, identifiers of any length), and EVERY way of
+   putting horizontal whitespace - spaces, tabs, CRs, hence CRLF line ends and any indentation - in front of the tokens of
+   the one-field-per-line text, ReadFile (tokenizer and parser models together, with the fuel the driver passes) returns
+   exactly the File the text states: the structs in source order, each with its fields in order, nothing else, no
+   attribute leaking from one definition to the next.  (front/ParseInv.v: tokenizer inversion, then the parser stepped
+   symbolically over the token list with an induction over fields and over definitions.)  Messages, enums, unions, consts,
+   container types, attributes and comments are decided by the run against the expected dump. *)
+Definition C11_structs_statement : Prop :=
+  forall sl l tail,
+    Forall sdef_ok sl -> map snd l = schema_lex sl ->
+    Forall (fun p => hws (fst p)) l -> sep_ok l -> hws tail ->
+    exists s', read_file (render l tail) false = POk (file_of sl) s'.
+Theorem C11_structs : C11_structs_statement.
+Proof. exact read_structs. Qed.
+
+(* the hypotheses are met: two structs, ragged spacing, CRLF line ends *)
+Example C11_structs_witness :
+  let A := {| ic := 65%N; itl := [] |} in let B := {| ic := 66%N; itl := [98%N] |} in
+  let i32 := {| ic := 105%N; itl := [110; 116; 51; 50]%N |} in let x := {| ic := 120%N; itl := [] |} in let y := {| ic := 121%N; itl := [49; 95]%N |} in
+  let sl := [(A, [(i32, x); (B, y)]); (B, [])] in
+  let sp := [32%N] in let cr := [13%N] in
+  let ws := [[]; sp; sp ++ sp; cr;  [9%N]; sp; []; cr;  [9; 32]%N; [9%N]; sp; cr;  []; cr;   []; sp; []; cr; []; []] in
+  let l := combine ws (schema_lex sl) in
+  Forall sdef_ok sl /\ map snd l = schema_lex sl /\ Forall (fun p => hws (fst p)) l /\ sep_ok l /\
+  exists s', read_file (render l [32; 13]%N) false = POk (file_of sl) s'.
+Proof.
+  cbv zeta. split; [repeat constructor|]. split; [reflexivity|]. split; [repeat constructor|].
+  split; [cbn; intuition (try discriminate; eauto)|]. eexists. vm_compute. reflexivity.
+Qed.
+Print Assumptions C11_structs.
